@@ -122,11 +122,17 @@ def thread_states(threads=None):
 
 
 def parked_forever(stack_frames):
-    """True when the innermost frames show an untimed wait (Condition.wait / Queue.get / lock)."""
+    """True when the thread sits in an untimed blocking Queue.get (the only untimed waits the library performs:
+    handshake worker / network thread waiting for a segment). A Condition/Event wait reached from anywhere else
+    (Thread.start, timed waits) is not "forever"."""
     if not stack_frames:
         return False
-    top = stack_frames[0]
-    return (top[0], top[1]) in _BLOCKING
+    names = [(f[0], f[1]) for f in stack_frames[:4]]
+    if names[0] == ("queue.py", "get"):
+        return True
+    if names[0] == ("threading.py", "wait") and len(names) > 1 and names[1] == ("queue.py", "get"):
+        return True
+    return False
 
 
 def blocked_on_lock(stack_frames):
